@@ -42,6 +42,8 @@ def canon_slice(v):
 
 
 def _canon_real(v):
+    if isinstance(v, str) and v.startswith('/') and 'pyvc-files-' in v:
+        return v.rsplit('/', 1)[1]         # a temp file standing for the model's file of the same name
     if isinstance(v, slice):
         return ('slice', v.start, v.stop, v.step)
     if isinstance(v, (list, tuple)):
